@@ -129,10 +129,15 @@ def handle (op : String) (j : Json) : Except String Json := do
     let rest ← itemOfJson (← j.getObjVal? "rest")
     let itemsF : Nat → Item := fun i => (items[i]?).getD rest
     let inline := (j.getObjValAs? Bool "inline").toOption.getD false
+    let evs ← evsJ.mapM (evOfJson plainEv)
+    let callsJ := fun (st : St SeqSt) => Json.arr (st.s.calls.map (fun c =>
+      Json.arr #[.num (JsonNumber.fromNat c.1), match c.2 with | some e => .str e | none => .null])).toArray
     if inline then
-      pure (respond (seqInlineM kind itemsF) seqInit [] (← evsJ.mapM (evOfJson plainEv)) valToJson)
+      pure ((respond (seqInlineM kind itemsF) seqInit [] evs valToJson).setObjVal! "calls"
+        (callsJ (final (seqInlineM (α := Val) kind itemsF) seqInit evs)))
     else
-      pure (respond (seqM kind itemsF) seqInit [] (← evsJ.mapM (evOfJson plainEv)) valToJson)
+      pure ((respond (seqM kind itemsF) seqInit [] evs valToJson).setObjVal! "calls"
+        (callsJ (final (seqM (α := Val) kind itemsF) seqInit evs)))
   | "catch_handler" =>
     let res : Except Err Unit := match j.getObjValAs? String "res" with
       | .ok e => .error e
